@@ -16,6 +16,8 @@ AWKWARD_NAMES = ["Options", "OptionalFeature", "Vec3", "Vector", "HashSetStats",
                  "Date", "Map", "Set", "Error", "Event", "Promise", "Array", "Object", "Number", "Partial", "Symbol",
                  # names that end the way generated names end (<Name>Schema, <Command>Params), next to their stems
                  "Table", "TableSchema", "Schema", "JsonSchema", "QueryParams", "QueryParamsSchema", "Infer",
+                 # legal identifiers that are not CamelCase words, and names well-known crates use for untyped data
+                 "Item_V2", "Api_Response", "_Private", "Value", "JsonValue", "Any",
                  # multi-byte identifiers: every string operation of the tool on a type expression must respect character boundaries
                  "Größe", "データ", "Zoë"]
 SITES = ("param", "return", "field", "channel", "event", "event-let")
